@@ -52,7 +52,7 @@ type gatherDetail struct {
 	RootOr bool                 `json:"rootOr"`
 }
 
-func gatherRun(w *gen.Writer, d gatherDetail, class string) {
+func gatherRunUnguarded(w *gen.Writer, d gatherDetail, class string) {
 	var parts []string
 	visited := 0
 	for _, a := range d.Atoms {
@@ -174,7 +174,7 @@ func countAtoms(n index.VerifC02Node) int {
 	return c
 }
 
-func treeRun(w *gen.Writer, d treeDetail, class string) {
+func treeRunUnguarded(w *gen.Writer, d treeDetail, class string) {
 	in := fmt.Sprintf("gathert %s %s", gen.Hex(d.Name), showNode(d.Root))
 	got := index.VerifC02GatherTree(d.Name, d.Root)
 	w.Emit(gen.Case{In: in, Impl: showHookCands(got), Class: class, Nontrivial: len(got) >= 2 && countAtoms(d.Root) > len(got), Detail: gen.Detail(struct {
@@ -195,7 +195,7 @@ type breakDetail struct {
 	Cands []index.VerifC02Cand `json:"cands"`
 }
 
-func breakRun(w *gen.Writer, d breakDetail, class string) {
+func breakRunUnguarded(w *gen.Writer, d breakDetail, class string) {
 	in := fmt.Sprintf("brk %s %s", gen.Hex(d.Text), showHookCands(d.Cands))
 	got := index.VerifC02BreakOnNewlines(d.Text, d.Cands)
 	w.Emit(gen.Case{In: in, Impl: showHookCands(got), Class: class, Nontrivial: len(got) > len(d.Cands), Detail: gen.Detail(struct {
@@ -225,7 +225,7 @@ type romDetail struct {
 	Rs   []uint32 `json:"rs"`
 }
 
-func romRun(w *gen.Writer, d romDetail, class string) {
+func romRunUnguarded(w *gen.Writer, d romDetail, class string) {
 	m, res := index.VerifC02RuneOffsetMap(d.Offs, d.Rs)
 	pairs := func(ps [][2]uint32) string {
 		if len(ps) == 0 {
@@ -287,7 +287,7 @@ func hexList(bs [][]byte) string {
 	return strings.Join(p, ";")
 }
 
-func findoffRun(w *gen.Writer, docs []e2lib.Doc, class string) {
+func findoffRunUnguarded(w *gen.Writer, docs []e2lib.Doc, class string) {
 	s, err := e2lib.BuildShard(docs)
 	if err != nil {
 		w.Emit(gen.Case{Go: "cannot build shard: " + err.Error(), Key: "harness-build", Class: class})
@@ -468,4 +468,32 @@ func main() {
 	for i, n := 0, f.N(1500, 40000); i < n; i++ {
 		treeCase(w, r)
 	}
+}
+
+func gatherRun(w *gen.Writer, d gatherDetail, class string) {
+	e2lib.Guard(w, class, struct {
+		Gather gatherDetail `json:"gather"`
+	}{d}, func() { gatherRunUnguarded(w, d, class) })
+}
+
+func breakRun(w *gen.Writer, d breakDetail, class string) {
+	e2lib.Guard(w, class, struct {
+		Break breakDetail `json:"break"`
+	}{d}, func() { breakRunUnguarded(w, d, class) })
+}
+
+func romRun(w *gen.Writer, d romDetail, class string) {
+	e2lib.Guard(w, class, struct {
+		Rom romDetail `json:"rom"`
+	}{d}, func() { romRunUnguarded(w, d, class) })
+}
+
+func treeRun(w *gen.Writer, d treeDetail, class string) {
+	e2lib.Guard(w, class, struct {
+		Tree treeDetail `json:"tree"`
+	}{d}, func() { treeRunUnguarded(w, d, class) })
+}
+
+func findoffRun(w *gen.Writer, docs []e2lib.Doc, class string) {
+	e2lib.Guard(w, class, findoffDetail{docs, 0, false}, func() { findoffRunUnguarded(w, docs, class) })
 }
